@@ -193,6 +193,11 @@ def main(argv=None):
                                                                  solver=o.get("solver"), solver_output=o.get("detail"),
                                                                  goal=o.get("goal"), files_changed=changed,
                                                                  note="no concrete failing input found by finite instantiation / native rings"))
+            if o["kind"] == "cover" and changed and r["mode"] != "R":
+                # a cover ("returns on some path", "every symbolic loop was cut") that fails on CHANGED source says the harness did
+                # not get through the new code, nothing about the property
+                proof_lost.append((r["unit"], "cover obligation %s failed on changed source" % o["name"]))
+                continue
             if o["kind"] == "noraise" and changed and r["mode"] != "R" and "ContractViolation" not in (o.get("detail") or ""):
                 # an exception under proxy execution of CHANGED source: the harness (stub objects, symbolic arrays) may simply not
                 # follow the new code (e.g. a helper method extracted onto `self`).  Not a verdict: the proof is lost and the
@@ -270,6 +275,13 @@ def do_pin(prop, results, exp_path):
     with open(exp_path, "w") as f:
         json.dump(old, f, indent=1, sort_keys=True)
     print("pinned %d unit(s) to %s" % (len(units), os.path.relpath(exp_path, VERIF)))
+    # local-variable order of every extracted function (used to recognise pure renamings, see loopcut.Extracted)
+    lp = os.path.join(VERIF, "expected", "locals.json")
+    loc = json.load(open(lp)) if os.path.exists(lp) else {}
+    for r in results:
+        loc.update(r.get("locals") or {})
+    with open(lp, "w") as f:
+        json.dump(loc, f, indent=1, sort_keys=True)
 
 
 def write_evidence(prop, tier, seed, results, violations, known, undecided, wall, proof_lost=()):
